@@ -114,7 +114,7 @@ CONFIG = {
                 "perft of the rules spec (sum over k = 1..depth+1 of the number of legal move sequences of length k)",
     },
     "C14": {
-        "ignore_ops": ("pos", "game", "gtoggle", "gunplay"), "spec_tags": ("gcoord", "galg", "glabels", "gsnap", "cliin", "gbsnap"), "sample_tags": ("gcoord", "galg", "cliin"),
+        "ignore_ops": ("pos", "game", "gtoggle", "gunplay"), "spec_tags": ("gcoord", "galg", "glabels", "gsnap", "cliin", "gbsnap", "pvp"), "sample_tags": ("gcoord", "galg", "cliin", "pvp"),
         "rule": "games played through the Game API: at every node several rejected inputs (mutated labels, labels of the previous position, illegal coordinate pairs; periodically all 4096 pairs) "
                 "must leave the game snapshot (board, clocks, key, history) unchanged, and one accepted input (by label or by coordinates) must play exactly the named move and append it to the history; "
                 "every answer is compared with the model's apply_by_coords / apply_by_notation",
@@ -247,6 +247,9 @@ def scenarios(pid, tier, seed):
         return [
             {"args": ["scen", "family=cli", "per=%d" % (8 if q else 40), "walkpos=%d" % (40 if q else 1500), S], "shards": 16},
             {"args": ["scen", "family=games", "len=%d" % (10 if q else 60), "allpairs=%d" % (60 if q else 5), "walkpos=%d" % (4 if q else 120), S], "shards": 16},
+            # the real `chess pvp` loop in a child process: miniature games typed as coordinates / printed notation with
+            # rejected inputs in between; every board it prints and its final verdict are compared with the model
+            {"args": ["scen", "family=pvp", "count=%d" % (12 if q else 240), S], "shards": 6},
         ]
     if pid == "C15":
         return [
